@@ -29,3 +29,8 @@ add('C03', 'translation_validation', 'runtime translation validation of every tr
     'Every function of an ~11.8k-function binary is handed to the real fixOrigin path and the produced trampoline is validated instruction by instruction against the original prologue (same instruction, same absolute targets, correct return jump, confinement); refusals are checked to leave everything untouched. A generated zoo is executed through the public API under warm / fresh-goroutine / depth-sweep regimes with result and callback-count oracles. programs = trampolines validated.',
     'Trusts the reference x86 decoder; population = functions linkable here with the repo toolchain (go1.23.5); far (non-text) placeholders are outside the property\'s domain.',
     'DESIGN.md 2 C03')
+
+add('C05', 'exploration', 'exact-cursor monitor on sequential histories; recorded concurrent histories checked offline by porcupine (monotone-cursor model) and a real-time-order checker; Go race detector',
+    'Thousands of generated stub configurations are driven by random call interleavings against an exact per-stub cursor; under concurrency (race build and plain build, spin-barrier release, 2-32/64 goroutines) every operation is recorded at the client boundary from one atomic clock and the history is checked by porcupine and by a direct order check; race reports are counted from the detector log. Schedules are sampled; the evidence counts overlapping operations and lost-update histories actually seen.',
+    'Concurrency clause asserted exactly as stated (element of sequence, never backwards, sticky last), not k-th-call-gets-k-th-element; porcupine timeouts are inconclusive.',
+    'DESIGN.md 2 C05')
